@@ -214,3 +214,7 @@ fn before_request_list() {
     assert!(block_on(response).is_ok());
     assert!(i.get() == 2);
 }
+
+#[cfg(kani)]
+#[path = "/verif/kani/hooks_before.rs"]
+mod verif_kani;
